@@ -116,15 +116,18 @@ Proof.
   intros Hwf Hm. split; [|split].
   - intros _ r. apply dec_chunk_complete; assumption.
   - destruct c as [w b]. destruct Hwf as (Hfit & Hb & Hu). cbn [fst snd] in *.
-    intros p q E Hq _. unfold enc_chunk in E. cbn [fst snd] in E. unfold dec_chunk.
+    intros p q E Hq _. unfold enc_chunk in E. cbn [fst snd] in E.
+    destruct p as [|b0 t0]; [reflexivity|].
+    destruct (enc_head_first_facts m w (len b) Hfit) as (b1 & t1 & E1 & Hb1 & Hm1 & H31).
+    assert (Hb01 : b0 = b1) by (rewrite E1 in E; cbn [app] in E; inversion E; reflexivity). subst b1.
+    unfold dec_chunk. rewrite Hb1, Hm1, H31, major_eqb_refl. cbn [negb andb].
     apply app_eq_app in E as [l [[H1 H2]|[H1 H2]]].
     + destruct l as [|c l].
-      * rewrite app_nil_r in H1. subst p. cbn [app] in H2. subst q.
+      * rewrite app_nil_r in H1. rewrite <- H1. cbn [app] in H2. subst q.
         rewrite <- (app_nil_r (enc_head m w (len b))), dec_head_enc by exact Hfit. cbn [dbind].
-        rewrite major_eqb_refl. rewrite take_eoi; [reflexivity|].
-        unfold len. destruct b; [congruence|]. cbn [length]. lia.
-      * rewrite (dec_head_prefix_eoi m w (len b) p (c :: l) Hfit H1); [reflexivity|discriminate].
-    + subst p. rewrite dec_head_enc by exact Hfit. cbn [dbind]. rewrite major_eqb_refl.
+        rewrite take_eoi; [reflexivity|]. unfold len. destruct b; [congruence|]. cbn [length]. lia.
+      * rewrite (dec_head_prefix_eoi m w (len b) (b0 :: t0) (c :: l) Hfit H1); [reflexivity|discriminate].
+    + rewrite H1. rewrite dec_head_enc by exact Hfit. cbn [dbind].
       rewrite (take_prefix_eoi b l q H2 Hq). reflexivity.
   - apply enc_chunk_first with (m := m). exact Hwf.
 Qed.
